@@ -12,7 +12,11 @@ mod exec;
 mod net;
 mod plan;
 
-use std::{collections::BTreeMap, time::Instant};
+use std::{
+    collections::BTreeMap,
+    sync::atomic::{AtomicBool, Ordering},
+    time::Instant,
+};
 
 use serde_json::{Value, json};
 
@@ -143,12 +147,41 @@ fn shape(plan: &Plan) -> Vec<u8> {
     s
 }
 
+/// A worker that ends inside this process does not always give its epoll descriptors back (an
+/// activated UDP listener keeps a cloned registry alive through an Rc cycle; harmless for a worker
+/// process that exits, but it adds up over tens of thousands of in-process workers): stop starting
+/// cases before the descriptor table is full.
+static FD_PRESSURE: AtomicBool = AtomicBool::new(false);
+
+fn fd_pressure(case: u64) -> bool {
+    if case % 128 == 0 {
+        let used = std::fs::read_dir("/proc/self/fd").map(|d| d.count()).unwrap_or(0) as u64;
+        let mut lim = libc::rlimit { rlim_cur: 0, rlim_max: 0 };
+        let soft = if unsafe { libc::getrlimit(libc::RLIMIT_NOFILE, &mut lim) } == 0 { lim.rlim_cur as u64 } else { 1024 };
+        if used * 10 > soft * 7 {
+            FD_PRESSURE.store(true, Ordering::SeqCst);
+        }
+    }
+    FD_PRESSURE.load(Ordering::SeqCst)
+}
+
 fn run_case(ctx: &Ctx, case: u64, rep: &mut Report) {
+    if ctx.replay.is_none() && fd_pressure(case) {
+        rep.obs("cases_not_started_descriptor_table_70_percent_full", 1);
+        return;
+    }
     let mut rng = Rng::for_case(ctx.seed, 8, case);
     let cell = Cell { ip: lab::fresh_ip() };
     let max_len = ctx.opt_u64("max_len", 200) as usize;
-    let plan = generate(&mut rng, cell, max_len);
-    let out = run_plan(&plan);
+    let mut plan = generate(&mut rng, cell, max_len);
+    let mut out = run_plan(&plan);
+    if out.inconclusive.iter().any(|i| i.starts_with("could not start the scripted backends")) {
+        // the private address collided with a cell of another process: same plan on a new address
+        rep.obs("cells_moved_to_another_address", 1);
+        let mut rng = Rng::for_case(ctx.seed, 8, case);
+        plan = generate(&mut rng, Cell { ip: lab::fresh_ip() }, max_len);
+        out = run_plan(&plan);
+    }
     merge(rep, &out);
     rep.obs_max("sequence_len", plan.cmds.len() as u64);
     for b in &out.broken {
@@ -175,14 +208,14 @@ pub fn run(ctx: &Ctx) -> Report {
     rep.assume("verbs the main process never forwards to workers (SaveState, ListWorkers, ...) are outside the quantifier and never sent");
     rep.assume("SoftStop/HardStop are only sent last; ReturnListenSockets mid-sequence only in raw mode (the main process sends it only right before SoftStop)");
     rep.assume("HTTP routing expectation uses exact hosts, prefix paths, tree position, no method (C04 covers the router); frontends outside that model are exempt from route probes");
-    rep.assume("empty buckets (backends/tcp_fronts/udp_fronts/certificates) are normalised in the convergence comparison (strict comparison is C07's); UDP listeners are covered by exactly-once and convergence only, HTTPS listeners by a liveness probe only");
+    rep.assume("empty buckets (backends/tcp_fronts/udp_fronts/certificates) are normalised in the convergence comparison (strict comparison is C07's); UDP listeners get one datagram probe (relay to a backend of the bound cluster, or silence); HTTPS listeners a TLS request per frontend (any certificate accepted; 421 accepted when no certificate of the view names the host: certificate choice is C17's)");
     rep.assume("a frontend whose cluster was removed while its backends remain: 200 from one of those backends or 503 are both accepted");
     lab::raise_fd_limit();
     for k in [
         "sequences/raw", "sequences/master_filtered", "sequences/bursts", "sequences/one_at_a_time", "sequences/with_interleaved_traffic",
         "ids_accounted", "convergence/hashes_checked", "convergence/cluster_by_id_checked", "convergence/dump_checked", "convergence/backend_table_checked",
         "listener_probes/active", "listener_probes/active_served", "listener_probes/refused_as_expected", "route_probes", "route_probes/landed_on_backend_of_cluster",
-        "c07_failure_checked", "closing/SoftStop/exited", "closing/soft_stop_event_logs_checked", "bursts",
+        "c07_failure_checked", "closing/SoftStop/exited", "https_route_probes", "https_route_probes/landed_on_backend_of_cluster", "udp_probes", "udp_probes/relayed_to_backend_of_cluster", "tcp_route_probes/relayed_to_backend_of_cluster", "closing/soft_stop_event_logs_checked", "bursts",
         "pattern/listener:add-activate-deactivate-reactivate", "pattern/listener:remove-while-active", "pattern/listener:add-remove-never-activated",
         "pattern/backend:same-id-two-addresses", "pattern/backend:same-address-two-ids", "pattern/cluster:remove-with-frontends-and-backends-left",
         "pattern/frontend:added-before-its-listener",
@@ -200,12 +233,12 @@ pub fn run(ctx: &Ctx) -> Report {
         }
         return rep;
     }
-    let n = ctx.opt_u64("cases", ctx.tier.pick(380, 7600));
+    let n = ctx.opt_u64("cases", ctx.tier.pick(2400, 22000));
     // cells mostly wait (sockets, timers): run more cells than cores; keep part of the budget for
     // minimising the witnesses
     let mut phase1 = ctx.clone();
     phase1.threads = ctx.opt_u64("cells", (ctx.threads as u64 * 4).min(64)) as usize;
-    phase1.budget = ctx.budget.mul_f64(ctx.tier.pick(0.58, 0.85));
+    phase1.budget = ctx.budget.mul_f64(ctx.tier.pick(0.5, 0.85));
     par_cases(&phase1, &mut rep, n, |i, r| run_case(&phase1, i, r));
     if ctx.opt_u64("shrink", 1) == 1 {
         minimise_witnesses(ctx, &mut rep);
@@ -215,7 +248,7 @@ pub fn run(ctx: &Ctx) -> Report {
 
 /// phase 2: for each signature, re-generate the shortest witness's plan and minimise it
 fn minimise_witnesses(ctx: &Ctx, rep: &mut Report) {
-    let deadline = ctx.started + ctx.budget.mul_f64(ctx.tier.pick(0.84, 0.96));
+    let deadline = ctx.started + ctx.budget.mul_f64(ctx.tier.pick(0.66, 0.96));
     let mut by_sig: BTreeMap<String, usize> = BTreeMap::new();
     for (i, v) in rep.violations.iter().enumerate() {
         // prefer a master-filtered witness (what production can reach), then the shortest
